@@ -194,12 +194,16 @@ def signature(f):
 
 
 CORPUS_EXPECT = {
-    "vip-proxy-outlives-assignment": ("vip-advertised", "proxy-outlived-assignment"),
+    # witnesses of the open findings: must fail as recorded
     "kindnames-name-shared-across-kinds": ("kindnames", "instance-redefined-or-name-shared-across-kinds"),
     "kindnames-instance-renamed": ("kindnames", "instance-redefined-or-name-shared-across-kinds"),
-    "topology-pair-declared-twice": ("topology", "pair-shared-or-instance-redefined-or-wildcard-gateway"),
+    "topology-upstream-dropped": ("topology", "upstream-dropped-or-instance-redefined-or-wildcard-gateway"),
     "gateway-listed-service-overwritten-by-wildcard": ("gateway-services", "wildcard-gateway"),
     "usage-instance-renamed-to-consul": ("usage", "instance-renamed-to-or-from-consul"),
+    # regression cases of the repaired findings (8e1bd1c, acb191c): any oracle failure on them has no excluded
+    # class and is therefore reported as a VIOLATION with the corpus history as its replay
+    "vip-proxy-outlives-assignment": None,
+    "topology-pair-declared-twice": None,
 }
 
 
